@@ -25,6 +25,11 @@ CLAIMED["C05"] = ("ovf-codec", "exploration",
   "Reference-built encrypted streams and datagrams with known plaintext and unit boundaries are mutated (bit flips, truncation, frame delete/dup/swap, garbage frames, edits, insertions, reflection, cross-session and cross-direction splices) and delivered through the real FramedRead/WebSocketFramed with the server's error-skipping consumer; released bytes must be a prefix of the sender's plaintext no longer than the frames complete before the first changed authenticated byte; tampered or reflected datagrams must yield no item. Exhaustive for every byte position / truncation point of one 3-frame stream per decoder configuration; exploration otherwise.",
   "Trusted: reference encoder and its unit table; RustCrypto AEADs. Trojan is out of scope (not an encrypted protocol).", "DESIGN.md 5/C05")
 
+CLAIMED["C06"] = ("ovf-codec+ovf-system", "exploration",
+  "negative property testing: generated non-credentialed inputs and key near-misses (built with an independent reference encoder) against the real server decoders; differential user-separation check with the reference decoder",
+  "Server decoders built from generated credentials and user tables are fed random bytes, reference-built valid handshakes under other / one-bit-different keys, other protocols' handshakes, handshakes truncated before the proof, identity-header and auth-id near-misses; no dial item (ConnectTcp / RelayUdp / decoded datagram) may come out. For every user of generated tables the reply must open under that user's key and under no other key. Exploration: a sampled negative space, not a cryptographic proof.",
+  "Trusted: reference encoder for building near-miss handshakes; AEAD/hash primitives.", "DESIGN.md 5/C06")
+
 PENDING = {}
 
 def main():
